@@ -203,6 +203,42 @@ def regex_drift():
         return ['unreadable: %s' % type(e).__name__]
 
 
+def source_fingerprint():
+    """sha256 of the docstring-free, position-free AST of every pydiffx module (tests excluded)."""
+    import ast
+    out = {}
+    root = os.path.join(lib.REPO, 'python', 'pydiffx')
+    for dp, dn, fn in os.walk(root):
+        if 'tests' in dp.split(os.sep):
+            continue
+        for f in sorted(fn):
+            if not f.endswith('.py'):
+                continue
+            path = os.path.join(dp, f)
+            try:
+                tree = ast.parse(open(path, encoding='utf-8').read())
+                for node in ast.walk(tree):
+                    if isinstance(node, (ast.FunctionDef, ast.ClassDef, ast.Module, ast.AsyncFunctionDef)) and node.body and \
+                            isinstance(node.body[0], ast.Expr) and isinstance(getattr(node.body[0], 'value', None), ast.Constant) and \
+                            isinstance(node.body[0].value.value, str):
+                        node.body = node.body[1:] or [ast.Pass()]
+                out[os.path.relpath(path, root)] = hashlib.sha256(ast.dump(tree, include_attributes=False).encode()).hexdigest()[:16]
+            except Exception as e:
+                out[os.path.relpath(path, root)] = 'unreadable: %s' % type(e).__name__
+    return out
+
+
+def source_drift():
+    """Modules whose code differs from the tree the checks were last calibrated on (harness/baseline_src.json). A drift is
+    not an alarm: it makes the check look harder (thorough-tier generation for the property's families)."""
+    try:
+        base = json.load(open(os.path.join(lib.VERIF, 'harness', 'baseline_src.json')))
+    except Exception:
+        return []
+    cur = source_fingerprint()
+    return sorted(k for k in set(base) | set(cur) if base.get(k) != cur.get(k))
+
+
 def check(prop_id, tier):
     t_start = time.time()
     register()
@@ -256,8 +292,9 @@ def check(prop_id, tier):
     # the hand model of the reader's / hunk parser's regexes was written against these pattern texts; if a text changed
     # (harmless respelling or not) the families that tie those models to the code run at their thorough bounds
     regex_changed = regex_drift()
+    src_changed = source_drift() if os.environ.get('VERIF_NO_ESCALATE') != '1' else []
     for fam in spec['families']:
-        fam_tier = 'thorough' if (regex_changed and fam.name in ('header', 'hunks', 'order')) else tier
+        fam_tier = 'thorough' if ((regex_changed and fam.name in ('header', 'hunks', 'order')) or src_changed) else tier
         try:
             d, f, k = run_family(fam, prop_id, fam_tier, known, stats)
         except Exception:
@@ -362,7 +399,7 @@ def check(prop_id, tier):
             samples=samples,
             correspondence=stats,
             generated=dict(changed_since_last_run=b.changed_gen),
-            regex_text_changed=regex_changed,
+            regex_text_changed=regex_changed, source_changed_since_calibration=src_changed,
             problems=problems[:10],
             known_findings_printed=printed,
             stale_known_findings=stale,
